@@ -69,10 +69,23 @@ def mk_array(F, dtype, values, shape=None):
 # re-formatted to the requested format by the named route before the symbolic code is written.  A well-formed object must behave the
 # same whatever its past (stale cached attributes are exactly what this is after).
 AGE = None
-AGE_ROUTES = ('resize', 'resize_dtype', 'resize_nint', 'like', 'resize_signed_then_sizes', 'resize_signed_only', 'int_born')
+AGE_ROUTES = ('resize', 'resize_dtype', 'resize_nint', 'like', 'resize_signed_then_sizes', 'resize_signed_only', 'int_born',
+              'inplace', 'sticky_flags')
+# 'inplace': the object already has the requested format, holds other values, is used by every kind of operator (anything those may
+#            cache about the value buffer is now warm), and then receives the codes under test by element-wise *in-place* writes
+#            (x.set_val(code, raw=True, index=i)); scalars fall back to 'resize'.
+# 'sticky_flags': an ordinary object whose overflow and underflow flags were raised by an earlier write (sticky until reset());
+#            a result computed from it must be flagged only for what happens in the computation itself.
 
 
-def _aged(F, signed, n_word, n_frac, shape, kw):
+def _use_everything(F, x):
+    """one call of every family of operators / renderings / reductions (whatever they memoise about x is computed now)"""
+    (~x), (x + x), (x - x), (x * x), (x >> 1), (x << 1), (x & 1), x.bin(), x.hex(), x.get_val(), (x == x), (x < x), x.raw(), x.uraw()
+    if x.val.ndim:
+        F.np.sum(x), x.max(), x.cumsum()
+
+
+def _aged(F, signed, n_word, n_frac, shape, kw, AGE):
     k = size_of(shape) if shape else 1
     first = nested([1] * k, shape) if shape else 1
     s0 = (not signed) if (AGE in ('resize_signed_then_sizes', 'resize_signed_only') and n_word > 1) else signed
@@ -107,8 +120,32 @@ def _aged(F, signed, n_word, n_frac, shape, kw):
 
 def raw_fxp(F, signed, n_word, n_frac, codes, shape=None, **kw):
     """well-formed object holding the given code(s), built through the public API"""
-    if AGE is not None:
-        x = _aged(F, signed, n_word, n_frac, shape if shape and shape != () else None, kw)
+    age = AGE
+    if age == 'inplace' and (shape is None or shape == () or n_word >= 64):
+        age = 'resize'
+    if age == 'inplace':
+        k = size_of(shape)
+        dt = 'int64' if signed else 'uint64'
+        x = F.Fxp(None, signed, n_word, n_frac, **kw)
+        x.set_val(mk_array(F, dt, [(i % 2) if n_word > 1 or not signed else 0 for i in range(k)], shape), raw=True)
+        _use_everything(F, x)
+        cl = list(codes)
+        for i, ix in enumerate(F.np.ndindex(*shape)):
+            x.set_val(cl[i], raw=True, index=ix if len(ix) > 1 else ix[0])
+        _ = x.status
+        x.reset()
+        return x
+    if age == 'sticky_flags':
+        x = F.Fxp(None, signed, n_word, n_frac, **kw)
+        if shape is None or shape == ():
+            x.set_val(codes[0] if _isinstance(codes, (list, tuple)) else codes, raw=True)
+        else:
+            x.set_val(mk_array(F, 'O' if n_word >= 64 else ('int64' if signed else 'uint64'), list(codes), shape), raw=True)
+        x.status['overflow'] = True
+        x.status['underflow'] = True
+        return x
+    if age is not None:
+        x = _aged(F, signed, n_word, n_frac, shape if shape and shape != () else None, kw, age)
         if shape is None or shape == ():
             x.set_val(codes[0] if _isinstance(codes, (list, tuple)) else codes, raw=True)
         else:
